@@ -54,12 +54,14 @@ CWAll == {"ok", "canceled", "relay", "other"}
 CROk == {"ok"}
 CRAll == {"ok", "timeout", "relay", "other"}
 CROkRelay == {"ok", "relay"}
+CRNoTO == {"ok", "relay", "other"}
 SRAll == {"relay", "timeout", "other"}
 SRTimeout == {"timeout"}
 HResp == {"resp"}
 HAll == HResults
 HMain == {"resp", "nil", "false", "respfalse", "err", "resperr"}
 HMain3 == {"resp", "false", "resperr"}
+HRF == {"resp", "false"}
 GNone == {}
 G2 == {2}
 G12 == {1, 2}
